@@ -49,7 +49,7 @@ def main():
             rcx, _ = sh("cargo run --offline -q -p rspirv --example %s >/dev/null 2>&1" % ex, cwd=wt)
             res["ran"]["demo_with_patch"] = {"exit": rcx, "tail": out.strip()[-300:]}
             mdir = mirror(wt)
-            checks = [prop] + EXTRA.get(prop, [])
+            checks = [prop] + ([] if os.environ.get("RUNSEEDS_NO_EXTRA") else EXTRA.get(prop, []))
             det = {}
             for c in checks:
                 if not os.path.exists("%s/vlib/%s.py" % (mdir, c.lower())):
